@@ -48,7 +48,7 @@ def parse_line(l):
     return r
 
 
-def run_cases(binary, lines, case_ms=4000, shards=common.NPROC, per_shard=120):
+def run_cases(binary, lines, case_ms=4000, shards=common.NPROC, per_shard=120, extra_env=None):
     """Feed `lines` to the driver; returns result dicts aligned with `lines`.
     v in OK ERR PANIC TIMEOUT STACK ALLOC CRASH HANG.  A process that dies is restarted after
     the case that killed it; a case past its deadline is reported by the driver's watchdog
@@ -63,6 +63,8 @@ def run_cases(binary, lines, case_ms=4000, shards=common.NPROC, per_shard=120):
     env = dict(os.environ)
     env["VERIF_CASE_MS"] = str(case_ms)
     env["RUST_BACKTRACE"] = "0"      # an allocator abort otherwise symbolises a backtrace (slow, and not ours to time)
+    if extra_env:
+        env.update(extra_env)
 
     def one(ix):
         res = {}
@@ -355,7 +357,7 @@ def classify(case, r, profile, graphs):
                 return "kf-c05-choice-from-group-cycle"
         if generic_cycle(g):
             return "kf-c05-generic-cycle"
-        if v == "STACK" and ".abnf" in schema and not cyclic(g["refs"]):
+        if v in ("STACK", "TIMEOUT", "HANG") and ".abnf" in schema and not cyclic(g["refs"]):
             return "kf-c05-abnf-left-recursion-stack"
         if v in ("TIMEOUT", "HANG"):
             acyc, _, calls = graphs.q.get((schema, "root", None), (False, "?", 0))
@@ -1188,16 +1190,13 @@ def run(tier, seed):
     for profile in ("release", "debug") if not quick else ("release",):
         best = {}
 
+        # glibc: no mmap for large blocks and no trimming, so that a repeated case re-uses its pages instead of
+        # faulting them in again (page faults are what a loaded machine makes slow)
+        keep = {"MALLOC_MMAP_THRESHOLD_": "33554432", "MALLOC_TRIM_THRESHOLD_": "1073741824", "MALLOC_TOP_PAD_": "67108864"}
+
         def measure(indices, count_them):
-            # every shard process runs its cases twice in a row: the second pass finds the heap warm
-            # (a fresh process pays page faults for every allocation, which swamps a fast function)
             nsh = 8
-            pad = (-len(indices)) % nsh
-            order = list(indices) + [indices[0]] * pad
-            rs = run_cases(drv[profile], [line_of(glist[i]) for i in order + order], case_ms=20000 if quick else 60000, shards=nsh, per_shard=1)
-            for i, r in zip(order, rs[len(order):]):
-                if r["v"] in ("OK", "ERR"):
-                    best[i] = min(best.get(i, 10 ** 12), max(r["cpu"], 1))
+            rs = run_cases(drv[profile], [line_of(glist[i]) for i in indices], case_ms=20000 if quick else 60000, shards=nsh, per_shard=1, extra_env=keep)
             for i, r in zip(indices, rs):
                 c = glist[i]
                 if count_them:
@@ -1207,6 +1206,15 @@ def run(tier, seed):
                         tally.unexplained.append((c, r, profile))
                 if r["v"] in ("OK", "ERR"):
                     best[i] = min(best.get(i, 10 ** 12), max(r["cpu"], 1))
+            # a fresh process pays page faults for every allocation, which swamps a fast function: the fast cases
+            # run again, twice in a row in the same process, and the warm second pass counts
+            fast = [i for i, r in zip(indices, rs) if r["v"] in ("OK", "ERR") and r["cpu"] < 100000]
+            if fast:
+                order = fast + [fast[0]] * ((-len(fast)) % nsh)
+                r2 = run_cases(drv[profile], [line_of(glist[i]) for i in order + order], case_ms=20000, shards=nsh, per_shard=1, extra_env=keep)
+                for i, r in zip(order, r2[len(order):]):
+                    if r["v"] in ("OK", "ERR"):
+                        best[i] = min(best.get(i, 10 ** 12), max(r["cpu"], 1))
 
         def ratios(byn):
             ts = [best.get(byn[n]) for n in sizes]
@@ -1218,10 +1226,11 @@ def run(tier, seed):
         def too_fast(r1, r2, ep=None):
             # a generous polynomial: geometric mean of the two doublings at most 10, no single doubling above 16;
             # decode_cbor, whose model is proven to need linear fuel (C05_decode_terminates), must stay below
-            # quadratic growth: t(4n) / t(n) at most 10 (linear: 4, quadratic: 16)
+            # quadratic growth: not both doublings above 3 with t(4n) / t(n) above 10 (linear: 2 and 4, quadratic: 4 and 16;
+            # a single large doubling is the allocator changing strategy, not growth)
             if r1 is None:
                 return False
-            if ep == "D" and r1 * r2 > 10.0:
+            if ep == "D" and r1 * r2 > 10.0 and min(r1, r2) > 3.0:
                 return True
             return r1 > 16 or r2 > 16 or r1 * r2 > 100.0
 
@@ -1248,7 +1257,9 @@ def run(tier, seed):
             growth[key] = {"cpu_us": ts, "ratio_2n_over_n": round(r1, 2), "ratio_4n_over_2n": round(r2, 2)}
             if too_fast(r1, r2, ep=ep):
                 c = glist[byn[sizes[2]]]
-                res.violation("growth of %s on family %s: cpu time %s us at n=%s grows faster than the polynomial bound (mean ratio > 10 per doubling)" % (ENTRY[ep], fam, ts, sizes),
+                res.violation("growth of %s on family %s: cpu time %s us at n=%s grows faster than allowed (%s)" % (ENTRY[ep], fam, ts, sizes,
+                              "decode_cbor must stay below quadratic growth: both doublings above 3, t(4n)/t(n) = %.1f > 10" % (r1 * r2) if ep == "D" and r1 * r2 <= 100 and max(r1, r2) <= 16
+                              else "mean ratio above 10 per doubling, or one doubling above 16"),
                               dict(replay_of(c, profile, {"v": "SLOW", "detail": str(ts)}), kind="growth"))
             if ts[2] > 30e6:
                 c = glist[byn[sizes[2]]]
@@ -1261,7 +1272,15 @@ def run(tier, seed):
     confirmed = []
     for c, r, profile in tally.unexplained[:60]:
         r2 = run_cases(drv[profile], [line_of(c)], case_ms=max(4 * case_ms, 12000))[0]
+        k2 = None
         if r2["v"] in FAIL:
+            if c.get("schema") is not None:
+                graphs.prefetch([c["schema"]])
+            k2 = classify(c, r2, profile, graphs)
+        if k2 is not None and k2 in findings:
+            tally.known_hits[k2] = tally.known_hits.get(k2, 0) + 1
+            notes.append("classified on re-run as %s: %s %s -> %s" % (k2, ENTRY.get(c["ep"], c["ep"]), r["v"], r2["v"]))
+        elif r2["v"] in FAIL:
             confirmed.append((c, r2, profile))
         else:
             notes.append("not confirmed on re-run: %s %s on %s -> %s" % (ENTRY.get(c["ep"], c["ep"]), r["v"], c.get("fam"), r2["v"]))
